@@ -1,0 +1,39 @@
+"""
+Trace hooks for external verification tooling.
+
+Every function here is a no-op unless the environment variable
+CELL_TYPE_MAPPER_VERIF is set to '1' and CELL_TYPE_MAPPER_VERIF_TRACE
+names a file; events are then appended, one JSON object per line, to
+<CELL_TYPE_MAPPER_VERIF_TRACE>.<pid> (one file per process, so that
+worker processes never interleave their lines).
+"""
+import json
+import os
+
+
+def enabled():
+    return (os.environ.get('CELL_TYPE_MAPPER_VERIF') == '1'
+            and bool(os.environ.get('CELL_TYPE_MAPPER_VERIF_TRACE')))
+
+
+def _clean(value):
+    if isinstance(value, dict):
+        return {str(k): _clean(v) for k, v in value.items()}
+    if isinstance(value, (list, tuple)):
+        return [_clean(v) for v in value]
+    if hasattr(value, 'tolist'):
+        return _clean(value.tolist())
+    if isinstance(value, (str, int, float, bool)) or value is None:
+        return value
+    return str(value)
+
+
+def emit(kind, **payload):
+    if not enabled():
+        return
+    path = '%s.%d' % (os.environ['CELL_TYPE_MAPPER_VERIF_TRACE'],
+                      os.getpid())
+    record = {'kind': kind}
+    record.update(_clean(payload))
+    with open(path, 'a') as dst:
+        dst.write(json.dumps(record) + '\n')
